@@ -66,7 +66,7 @@ OpFails(e) ==
   Tag(e.code = OpCode(e), "C15.index")
   \o Tag(ProjMatches(e.proj, cs, OpDl(e)), "C15.state")
   \o Tag(PartitionOK(e.proj), "C15.partition")
-  \o Tag(StandardOK(e.proj), "C15.standard")
+  \o (IF StandardOK(e.proj) THEN <<>> ELSE <<"C15.standard", "C13.defaults">>)    \* the default channels (equal to the Regional Parameters when the band was configured, C13) stay what they were
   \o Tag(LookupOK(e.proj, e.lookups), "C15.lookup")
   \o Tag(ClosedOK(e.proj), "C13.closed")
   \o Tag(Rx1OK(e.proj), "C12.channel")
